@@ -3,7 +3,7 @@ EXTENDS C17am_AddrsManager, Json
 \* JSON-able projection of the state for the replay (the justification ghost cur.src is left out)
 NextRead == IF pc = "upd" /\ k <= Len(Plan(ls)) THEN Plan(ls)[k] ELSE [kind |-> "-", key |-> "-"]
 St == [listen |-> listen, nat |-> [l \in NatKeys |-> nat[l]], obs |-> [x \in ObsKeys |-> ObsSeq(x)], fmode |-> fmode,
-       relayQ |-> relayQ, reachQ |-> reachQ, notify |-> notify, tickReady |-> tickReady, reachTrig |-> reachTrig,
+       relayQ |-> relayQ, reachQ |-> reachQ, notify |-> notify, nwait |-> NotifyWaiting, tickReady |-> tickReady, reachTrig |-> reachTrig,
        pc |-> pc, startWait |-> startWait, closeCalled |-> closeCalled, closeWait |-> closeWait,
        hostReach |-> hostReach, relayLoop |-> relayLoop,
        local |-> cur.local, r |-> cur.r, u |-> cur.u, k |-> cur.k, crelay |-> cur.relay, caddrs |-> cur.addrs,
